@@ -128,6 +128,9 @@ class Registry:
         self.auto_inline = {"tracklib.core.utils:isnan"}   # contract-less functions that may be inlined
         self.ghost_ok = set()
         self.variants = {}       # qual -> [Spec] (alternative contracts by argument kind)
+        self.trace_calls = set() # method names whose calls only print (dropped by the extraction)
+        self.trace_vars = set()  # local names that only hold trace text (assignments dropped)
+        self.abstract_fields = {}  # "Cls.field" -> name of the uninterpreted function a function-valued field denotes
 
     def add(self, spec, variant=None):
         """`variant`: a second contract of the same function for arguments of other kinds (a list where the
@@ -1075,6 +1078,10 @@ class Executor:
         if isinstance(v, ast.Call) and isinstance(v.func, ast.Name) and v.func.id == "print":
             self.ctx.dropped.append("%s:%d print(...)" % (self.fi.path, node.lineno))
             return Outcomes(normal=st)
+        if isinstance(v, ast.Call) and isinstance(v.func, ast.Attribute) and v.func.attr in self.ctx.reg.trace_calls:
+            # console trace helpers (HMM.printTrace / printSeparator): output only, dropped (DESIGN 2.1)
+            self.ctx.dropped.append("%s:%d %s(...) trace call" % (self.fi.path, node.lineno, v.func.attr))
+            return Outcomes(normal=st)
         self.eval(v, st)
         return Outcomes(normal=st)
 
@@ -1144,6 +1151,10 @@ class Executor:
     # --- assignment
     def s_Assign(self, node, st):
         nv = node.value
+        if len(node.targets) == 1 and isinstance(node.targets[0], ast.Name) and node.targets[0].id in self.ctx.reg.trace_vars:
+            self.ctx.dropped.append("%s:%d assignment of trace text %s" % (self.fi.path, node.lineno, node.targets[0].id))
+            st.vars[node.targets[0].id] = POISON
+            return Outcomes(normal=st)
         if isinstance(nv, ast.Call) and isinstance(nv.func, ast.Attribute) and nv.func.attr == "format" \
                 and isinstance(nv.func.value, ast.Constant) and isinstance(nv.func.value.value, str):
             self.ctx.dropped.append("%s:%d assignment of a formatted message string" % (self.fi.path, node.lineno))
@@ -1162,6 +1173,9 @@ class Executor:
         return Outcomes(normal=st)
 
     def s_AugAssign(self, node, st):
+        if isinstance(node.target, ast.Name) and node.target.id in self.ctx.reg.trace_vars:
+            self.ctx.dropped.append("%s:%d update of trace text %s" % (self.fi.path, node.lineno, node.target.id))
+            return Outcomes(normal=st)
         cur = self.eval(node.target, st)
         rhs = self.eval(node.value, st)
         if isinstance(cur.kind, KList) and isinstance(node.op, ast.Add):
